@@ -210,7 +210,7 @@ func checkC02(e *RunEnv) *CheckResult {
 	P := []string{"lib/x", "lib.go", "lib-old", "a b", "lib_z", "libs/y"}
 	spec := &Spec{
 		Seeds: []Seed{{"S0", seedS0()}, {"S1lib", append(seedS0(), Write("lib/x", v1("lib/x")), Write("lib/keep", v1("lib/keep")), Write("lib.go", v1("lib.go")), Run("add", "lib", "lib.go"), Run("commit", "-m", "c1"))}},
-		Depth: e.depth(4, 6),
+		Depth: e.depth(4, 7),
 		Steps: func(n *Node) []Step {
 			a := n.Abs()
 			t := nameSetTags(indexPaths(a))
